@@ -34,6 +34,10 @@ Spec == Init /\ [][Next]_c
 \* design-level: the 1-d model is an exact partition with inverse lookup; regular crop = chunk slicing
 AxisModelOK == c.op = "chunk" =>
    /\ \A n \in 1..MaxTile : AxisOK(RegChunks(c.N, n), c.N) /\ RegCropOK(c.N, n)
+   \* the rule proved for unbounded N, n in TilingInd.tla (tile k = [k n, min((k + 1) n, N)), count T with (T - 1) n < N <= T n) IS this model's rule
+   /\ \A n \in 1..MaxTile : LET ch == RegChunks(c.N, n) T == Len(ch) IN
+        /\ (T - 1) * n < c.N /\ c.N <= T * n
+        /\ \A k \in 0..(T - 1) : Region(ch, k, k + 1) = <<k * n, IF (k + 1) * n < c.N THEN (k + 1) * n ELSE c.N>>
    /\ \A v \in {x \in VarAxes : SumSeq(x) = c.N} : AxisOK(v, c.N)
 CropModelOK == c.op = "case" => LET ch == CropChunks(ModelChunks(c.d), c.crops) IN
    AxisOK(ch[1], SumSeq(ch[1])) /\ AxisOK(ch[2], SumSeq(ch[2]))
